@@ -49,7 +49,7 @@ func (c20) Components() map[string]string {
 }
 func (c20) Budget(tier string) int {
 	if tier == "thorough" {
-		return 6000000
+		return 3000000
 	}
 	return 160000
 }
